@@ -191,11 +191,17 @@ func findWaiter(key unsafe.Pointer, dir int8) (int32, int) {
 
 //go:norace
 func fireTask(i int32, which int) {
-	tasks[i].fire = true
+	// the parked task polls `fire` from its own goroutine (possibly on another processor
+	// in the determinism self-test): everything it reads must be written before the flag
 	tasks[i].fireIdx = which
 	tasks[i].state = tRunnable
 	progress++
+	publishFire(i)
 }
+
+//go:norace
+//go:noinline
+func publishFire(i int32) { tasks[i].fire = true }
 
 // waitOnMany registers the current task as waiting on n channels and yields as blocked.
 // It reports whether a counterpart completed one of the operations meanwhile.
@@ -439,4 +445,137 @@ func Background() int {
 		}
 	}
 	return n
+}
+
+// ---- sync.Cond. Wait / Signal / Broadcast are rewritten; the simulator keeps the list of
+// waiters (the real Cond is not used inside a run). As in the real implementation the only
+// happens-before edges are those of the Locker.
+
+type condWaiter struct {
+	c        unsafe.Pointer
+	task     int32
+	signaled bool
+}
+
+var (
+	condWaiters [tableCap]condWaiter
+	nCondW      int
+)
+
+//go:norace
+func condRegister(c unsafe.Pointer) {
+	if nCondW == tableCap {
+		simFault = "cond waiter table full"
+		return
+	}
+	condWaiters[nCondW] = condWaiter{c: c, task: cur}
+	nCondW++
+}
+
+//go:norace
+func condSignaled(c unsafe.Pointer) bool {
+	for i := 0; i < nCondW; i++ {
+		if condWaiters[i].c == c && condWaiters[i].task == cur {
+			if condWaiters[i].signaled {
+				for j := i; j+1 < nCondW; j++ {
+					condWaiters[j] = condWaiters[j+1]
+				}
+				nCondW--
+				return true
+			}
+			return false
+		}
+	}
+	return true // not registered (table fault): do not wait for ever
+}
+
+//go:norace
+func condWake(c unsafe.Pointer, all bool) {
+	var idx [tableCap]int
+	n := 0
+	for i := 0; i < nCondW; i++ {
+		if condWaiters[i].c == c && !condWaiters[i].signaled {
+			idx[n] = i
+			n++
+		}
+	}
+	if n == 0 {
+		return
+	}
+	progress++
+	if all {
+		for k := 0; k < n; k++ {
+			condWaiters[idx[k]].signaled = true
+		}
+		return
+	}
+	// Signal wakes the waiter that has waited longest (the real notifyList is FIFO)
+	condWaiters[idx[0]].signaled = true
+}
+
+func lockLocker(l sync.Locker) {
+	switch m := l.(type) {
+	case *sync.Mutex:
+		Lock(m)
+	case *sync.RWMutex:
+		Lock(m)
+	default:
+		setFault("sync.Cond with a Locker that is neither *sync.Mutex nor *sync.RWMutex")
+		l.Lock()
+	}
+}
+
+//go:norace
+func setFault(s string) { simFault = s }
+
+func CondWait(c *sync.Cond) {
+	if !isActive() {
+		c.Wait()
+		return
+	}
+	p := unsafe.Pointer(c)
+	condRegister(p)
+	c.L.Unlock()
+	noteProgress() // the lock was released without a yield in between: waiters on it may retry
+	for !condSignaled(p) {
+		blocked()
+	}
+	lockLocker(c.L)
+}
+
+func CondSignal(c *sync.Cond) {
+	if !isActive() {
+		c.Signal()
+		return
+	}
+	condWake(unsafe.Pointer(c), false)
+}
+
+func CondBroadcast(c *sync.Cond) {
+	if !isActive() {
+		c.Broadcast()
+		return
+	}
+	condWake(unsafe.Pointer(c), true)
+}
+
+// Gosched replaces runtime.Gosched: a voluntary yield. Under the seeded policies another
+// eligible task runs next; under script replay the recorded switch (if any) was taken at
+// the yield in front of this statement.
+func Gosched() {
+	if !isActive() {
+		runtime.Gosched()
+		return
+	}
+	voluntaryYield()
+}
+
+//go:norace
+func voluntaryYield() {
+	progress++
+	if pol.Kind == PolScript {
+		return
+	}
+	demote()
+	switchAway(0, EvSwitch)
 }
